@@ -151,7 +151,12 @@ def project(log, desc, layer="L0", wake=False):
                         out.append("A cbRetry %d" % c["d"])
                         wout.append("A add %d %d" % (fut_of_d.get(c["d"], 0), now_t + int(sleep_of_d.get(c["d"], 0))))
                         c["state"] = "done"
+                elif t == worker and wF is not None and wF[2]:
+                    # second `_lock` section of `_submit_now` (the executor lock is released around delegate.submit()):
+                    # the in-flight job is appended
+                    out.append("A submitApp")
                 elif t == worker and wF is not None:
+                    wF = (wF[0], wF[1], True)
                     eff = 0
                     for j in range(i + 1, len(log)):
                         x = log[j]
@@ -175,7 +180,7 @@ def project(log, desc, layer="L0", wake=False):
                         wout.append("A rescan")
                         wexpect_scan = True
             elif L in flock and t == worker and c is None:
-                wF = (flock[L], L)
+                wF = (flock[L], L, False)
         elif k == "rel":
             L = e[2]
             held[(t, L)] = held.get((t, L), 1) - 1
